@@ -23,6 +23,7 @@ import (
 	"fmt"
 	"reflect"
 	"runtime/debug"
+	"sort"
 	"sync"
 
 	"github.com/cloudwego/eino/internal/safe"
@@ -403,6 +404,10 @@ func (r *runner) run(ctx context.Context, isStream bool, input any, opts ...Opti
 }
 
 func (r *runner) resolveInterruptCompletedTasks(subGraphInterrupts map[string]*subGraphInterruptError, interruptRerunNodes, interruptAfterNodes *[]string, completedTasks []*task) (err error) {
+	// the tasks arrive in completion order: which failure is reported, and the order of the nodes an interrupt
+	// names, must not depend on it
+	completedTasks = append([]*task{}, completedTasks...)
+	sort.SliceStable(completedTasks, func(i, j int) bool { return completedTasks[i].nodeKey < completedTasks[j].nodeKey })
 	for i := 0; i < len(completedTasks); i++ {
 		if completedTasks[i].err != nil {
 			if info := isSubGraphInterrupt(completedTasks[i].err); info != nil {
